@@ -264,6 +264,9 @@ func Index(x, i V) (V, Status) {
 			}
 			return gen.Nil, OK
 		}
+		if i.K == gen.KInt || i.K == gen.KFloat || i.K == gen.KBool || i.K == gen.KNil {
+			return gen.Nil, OK // the keys of a logical map are strings: a number, boolean or nil is a missing key
+		}
 		return gen.Nil, Unsp
 	case gen.KStr:
 		return gen.Nil, Unsp
